@@ -26,6 +26,7 @@ type gPod struct {
 }
 
 type gEp struct {
+	extra   string // "+second address" of a multi-address endpoint
 	addr    string
 	r, s, t byte
 	target  string // "ns:name" or "-"
@@ -57,6 +58,10 @@ type genState struct {
 	nss    []string
 	wide   bool
 	noHold bool
+	withNs bool
+	nsObj  map[string]string // namespace objects: name -> annotation token
+	podInWindow bool         // a pod was written inside the current hold window
+	portsSet map[string]bool
 }
 
 var (
@@ -89,7 +94,7 @@ func (g *genState) svcLine(s *gSvc) {
 func (g *genState) sliceLine(s *gSlice) {
 	eps := make([]string, 0, len(s.eps))
 	for _, e := range s.eps {
-		eps = append(eps, e.addr+"/"+string(e.r)+"/"+string(e.s)+"/"+string(e.t)+"/"+e.target)
+		eps = append(eps, e.addr+e.extra+"/"+string(e.r)+"/"+string(e.s)+"/"+string(e.t)+"/"+e.target)
 	}
 	g.emit("slice", s.ns, s.name, wire.Enc(s.svc), s.atype, wire.EncList(g.slicePorts(s)), wire.EncList(eps))
 }
@@ -98,8 +103,12 @@ func (g *genState) nodeLine(n *gNode) { g.emit("node", n.name, wire.Enc(n.region
 
 func (g *genState) slicePorts(s *gSlice) []string {
 	k := s.ns + "/" + s.svc
-	if g.ports[k] == nil {
+	if !g.portsSet[k] {
+		g.portsSet[k] = true
 		g.ports[k] = wire.Pick(g.r, epPorts)
+		if g.r.Chance(1, 15) {
+			g.ports[k] = nil // a slice without ports: no endpoints, the pods are still looked up
+		}
 	}
 	return g.ports[k]
 }
@@ -142,7 +151,13 @@ func (g *genState) mkEp(ns, addr string) gEp {
 		}
 	}
 	e := gEp{addr: addr, r: 't', s: 't', t: 'f', target: "-"}
-	if strings.HasPrefix(addr, "10.0.0.") {
+	if r.Chance(1, 10) {
+		e.extra = "+10.0." + map[bool]string{true: "3", false: "4"}[strings.HasPrefix(addr, "10.0.0.")] + "." + addr[len(addr)-1:]
+	}
+	if addr == "10.0.0.3" && r.Chance(1, 3) {
+		// no targetRef at a pod address: the pod is looked up by IP in the pod cache (only p3 ever holds 10.0.0.3
+		// in a namespace, so the lookup is unambiguous)
+	} else if strings.HasPrefix(addr, "10.0.0.") {
 		switch {
 		case owner != nil && r.Chance(7, 8):
 			e.target = owner.ns + ":" + owner.name
@@ -170,10 +185,13 @@ func (g *genState) mkEp(ns, addr string) gEp {
 
 // pickIP: pod pN usually gets 10.0.0.N, sometimes another address of the pool (IP reuse)
 func (g *genState) pickIP(name string) string {
+	if name == "p3" {
+		return "10.0.0.3" // reserved: endpoints without targetRef use this address
+	}
 	if g.r.Chance(3, 4) {
 		return "10.0.0." + name[1:]
 	}
-	return wire.Pick(g.r, podIPs)
+	return wire.Pick(g.r, podIPs[:2])
 }
 
 func (g *genState) opPod() {
@@ -193,7 +211,14 @@ func (g *genState) opPod() {
 			p.ready = r.Chance(2, 3)
 		}
 		g.pods[k] = p
+		g.podInWindow = g.held
 		g.podLine(p)
+		return
+	}
+	g.podInWindow = g.held
+	if p.phase == "F" && r.Chance(3, 4) {
+		delete(g.pods, k)
+		g.emit("delpod", ns, name)
 		return
 	}
 	switch r.Intn(12) {
@@ -219,7 +244,7 @@ func (g *genState) opPod() {
 			p.ip = "" // eviction removes the IP in the same update
 		}
 	case 7:
-		p.ip = wire.Pick(r, podIPs) // IP change
+		p.ip = g.pickIP(name) // IP change
 	case 8:
 		if p.node == "" {
 			p.node = wire.Pick(r, []string{"k1", "k2"})
@@ -299,6 +324,14 @@ func (g *genState) opSlice() {
 		}
 		g.slices[k] = s
 	}
+	if s.svc != "" && !g.held && r.Chance(1, 40) {
+		// the service-name label of an existing slice is edited (legal, never done by the slice controller)
+		if s.svc == "a" {
+			s.svc = "b"
+		} else {
+			s.svc = "a"
+		}
+	}
 	// the address move macro needs an existing sibling slice holding an address
 	if r.Chance(1, 4) && s.svc != "" {
 		for _, a := range g.candidateAddrs(ns) {
@@ -334,8 +367,8 @@ func (g *genState) opSlice() {
 	// otherwise recompute the endpoint list
 	var eps []gEp
 	for _, a := range g.candidateAddrs(ns) {
-		if g.addrHolder(ns, s.svc, a, s.name) != nil {
-			continue
+		if g.addrHolder(ns, s.svc, a, s.name) != nil && !r.Chance(1, 4) {
+			continue // mostly one slice per address; sometimes a (possibly conflicting) duplicate
 		}
 		if r.Chance(2, 5) {
 			eps = append(eps, g.mkEp(ns, a))
@@ -348,6 +381,19 @@ func (g *genState) opSlice() {
 // refresh keeps an endpoint as it is (the slice is rewritten unchanged): the controller then
 // recomputes its record from the current stores.
 func (g *genState) refresh(e gEp, ns string) gEp { return e }
+
+func (g *genState) opNs() {
+	r := g.r
+	name := wire.Pick(r, g.nss)
+	if _, ok := g.nsObj[name]; ok && r.Chance(1, 5) {
+		delete(g.nsObj, name)
+		g.emit("delns", name)
+		return
+	}
+	td := wire.Pick(r, []string{"close", "~", "~"})
+	g.nsObj[name] = td
+	g.emit("ns", name, td)
+}
 
 func (g *genState) opNode() {
 	r := g.r
@@ -375,7 +421,8 @@ func gen(stream string, seed uint64, n int, outp string) {
 		r := root.Fork()
 		out.Line("case", strconv.Itoa(c), stream)
 		g := &genState{r: r, out: out, pods: map[string]*gPod{}, slices: map[string]*gSlice{}, svcs: map[string]*gSvc{},
-			nodes: map[string]*gNode{}, ports: map[string][]string{}, nss: []string{"n1"}}
+			nodes: map[string]*gNode{}, ports: map[string][]string{}, nss: []string{"n1"}, nsObj: map[string]string{},
+			portsSet: map[string]bool{}}
 		if r.Chance(1, 6) {
 			g.nss = []string{"n1", "n1", "n2"}
 		}
@@ -386,6 +433,7 @@ func gen(stream string, seed uint64, n int, outp string) {
 		g.wide = r.Chance(1, 3)
 		g.noHold = r.Chance(3, 5) // most histories are handled write by write (the class of the theorems)
 		withNodes := r.Chance(1, 3)
+		g.withNs = r.Chance(1, 4)
 		length := 2 + r.Intn(14)
 		if r.Chance(1, 10) {
 			length += 15
@@ -398,15 +446,28 @@ func gen(stream string, seed uint64, n int, outp string) {
 					g.emit("hold")
 				}
 				g.held = !g.held
+				g.podInWindow = false
 				continue
 			}
 			switch x := r.Intn(20); {
 			case x < 8:
 				g.opPod()
 			case x < 12:
-				g.opSvc()
-			case x < 18:
+				// recomputeServiceForPod stops at the first matching Service that is not yet in servicesMap, in the
+				// (random) order of the lister: no Service write after a Pod write inside one hold window
+				if g.held && g.podInWindow {
+					g.opSlice()
+				} else {
+					g.opSvc()
+				}
+			case x < 17:
 				g.opSlice()
+			case x == 17:
+				if g.withNs {
+					g.opNs()
+				} else {
+					g.opSlice()
+				}
 			default:
 				if withNodes {
 					g.opNode()
@@ -442,8 +503,11 @@ func gen(stream string, seed uint64, n int, outp string) {
 // order kept: that is all the informers guarantee).
 func (g *genState) simCase() {
 	r := g.r
-	var streams [4][]string // node, svc, pod, slice
+	var streams [5][]string // node, svc, pod, slice, ns
 	add := func(k int, toks ...string) { streams[k] = append(streams[k], strings.Join(toks, " ")) }
+	if r.Chance(1, 2) {
+		add(4, "ns", "n1", wire.Pick(r, []string{"close", "~"})) // the namespace exists before everything in it
+	}
 	kind := wire.Pick(r, []string{"cip", "cip", "hl"})
 	flags := wire.Pick(r, [][]string{nil, nil, {"drain"}})
 	add(1, "svc", "n1", "a", kind, "http:80", "app=a", wire.EncList(flags))
@@ -452,6 +516,7 @@ func (g *genState) simCase() {
 		add(0, "node", "k1", "r1", "z1")
 	}
 	type sp struct {
+		node          string
 		name, ip, ver string
 		ready, term   bool
 		alive         bool
@@ -466,8 +531,8 @@ func (g *genState) simCase() {
 	}
 	podLine := func(p *sp, phase string) {
 		node := "~"
-		if withNodes {
-			node = "k1"
+		if p.node != "" {
+			node = p.node
 		}
 		add(2, "pod", "n1", p.name, wire.Enc(p.ip), phase, wire.B(p.ready), wire.B(p.term), "app=a,version="+p.ver, "sa-"+p.name, node)
 	}
@@ -524,6 +589,12 @@ func (g *genState) simCase() {
 			p := &sp{name: name, ver: "v1", alive: true}
 			pods = append(pods, p)
 			podLine(p, "P")
+			if withNodes {
+				p.node = "k1" // Pending pod bound to a node by the scheduler
+				if r.Chance(1, 2) {
+					podLine(p, "P")
+				}
+			}
 			// the IP of a pod that is gone may be reused
 			p.ip = "10.0.0." + strconv.Itoa(1+r.Intn(3))
 			for _, q := range live {
@@ -552,6 +623,18 @@ func (g *genState) simCase() {
 		case x < 9:
 			// termination: deletionTimestamp, slice marks it, pod gone, slice drops it
 			p := wire.Pick(r, live)
+			if r.Chance(1, 4) {
+				// eviction: the pod turns Failed and loses its IP in the same update (the informer's field selector
+				// turns this into a DELETE), the slice drops it, the pod object is removed later
+				p.ready, p.alive = false, false
+				ip := p.ip
+				p.ip = ""
+				podLine(p, "F")
+				p.ip = ip
+				writeSlices()
+				add(2, "delpod", "n1", p.name)
+				break
+			}
 			p.term, p.ready = true, false
 			podLine(p, "R")
 			writeSlices()
@@ -577,7 +660,7 @@ func (g *genState) simCase() {
 	}
 	streams[3] = sl
 	// one interleaving
-	idx := [4]int{}
+	idx := [5]int{}
 	remaining := 0
 	for _, s := range streams {
 		remaining += len(s)
@@ -591,10 +674,17 @@ func (g *genState) simCase() {
 				g.emit("hold")
 			}
 			g.held = !g.held
+			g.podInWindow = false
 		}
-		k := r.Intn(4)
+		k := r.Intn(5)
 		if idx[k] >= len(streams[k]) {
 			continue
+		}
+		if k == 1 && g.held && g.podInWindow {
+			continue // see gen(): no Service write after a Pod write inside one hold window
+		}
+		if k == 2 && g.held {
+			g.podInWindow = true
 		}
 		// bursts: a stream usually delivers a few events in a row
 		n := 1 + r.Intn(3)
